@@ -19,7 +19,7 @@ Definition rel (t t' : rtok) : Prop :=
   /\ r_auth t' = r_auth t /\ r_scopes t' = r_scopes t.
 
 (* keep = the storage policy f_keep: only a rotating storage kills the presented token *)
-Record Sim (keep : bool) (g : ledger) (s : st) : Prop := {
+Record Sim (ga : string -> list string) (g : ledger) (s : st) : Prop := {
   s_codes : forall c n, In (c, n) (codes s) -> lookup c (g_codes g) = Some n /\ nat_in c (g_used g) = false;
   s_reqs : forall n q, find_req s n = Some q -> g_req g n = Some q;
   s_cbound : forall c n, lookup c (g_codes g) = Some n -> c <= ncode s;
@@ -28,7 +28,8 @@ Record Sim (keep : bool) (g : ledger) (s : st) : Prop := {
             exists t', g_rt g n = Some t' /\ rel t t' /\ nat_in n (g_rot g) = false;
   s_rbound : forall n t', g_rt g n = Some t' -> n <= next s;
   s_rotbound : forall n, In n (g_rot g) -> n <= next s;
-  s_noref : g_norefresh g = norefresh s
+  s_noref : g_norefresh g = norefresh s;
+  s_aud : forall t, In t (rtoks s) -> r_aud t = ga (r_client t)
 }.
 
 Lemma sim_init k : Sim k ledger0 init.
@@ -73,12 +74,12 @@ Proof.
 Qed.
 
 Lemma sim_step g s o s' x :
-  Sim (f_keep cf) g s ->
+  Sim (grant_aud cf) g s ->
   (forall c n, In (c, n) (codes s) -> exists q, find_req s n = Some q /\ q_done q = true) ->
   trans H cf s o s' x ->
-  c04_ok H cf g o x = true /\ c07_ok cf g o x = true /\ Sim (f_keep cf) (ledger_step g o x) s'.
+  c04_ok H cf g o x = true /\ c07_ok cf g o x = true /\ Sim (grant_aud cf) (ledger_step g o x) s'.
 Proof.
-  intros [Scodes Sreqs Scb Sub Srts Srb Srot Snr] Hdone Ht.
+  intros [Scodes Sreqs Scb Sub Srts Srb Srot Snr Saud] Hdone Ht.
   destruct Ht as [o x Hx Hns | pl0 cr0 n0 sc0 t0 Hrt0 Hn0 | cl uri scopes nonce chal ax | n sub stamp q Hq | n q Hq Hd
                  | pl f cr cd uri ver q c Hcr Hfc Hp Hu Hch Hpub | pl cr n scopes t c sc Hrt Hfc Hr Hfl Hp Hn
                  | cl | nrev].
@@ -172,6 +173,7 @@ Proof.
       * intro Hg. apply Srb in Hg. lia.
     + intros m Hin. apply Srot in Hin. destruct w; lia.
     + exact Snr.
+    + intros t Hin. destruct w; [|now apply Saud]. destruct Hin as [<- | Hin]; [reflexivity | now apply Saud].
   - (* refresh *)
     destruct (Srts _ _ Hrt) as [t' [Hgt [[R1 [R2 [R3 [R4 R5]]]] Hnrot]]].
     pose proof (proj1 (find_client_id cf _ _ Hfc)) as Hcid.
@@ -188,13 +190,19 @@ Proof.
     assert (Hj : match (if c_jwt c then Some (c_id c) else None) with
                  | Some c0 => String.eqb c0 (r_client t) | None => true end = true).
     { destruct (c_jwt c); [rewrite Hcid; apply String.eqb_refl | reflexivity]. }
+    pose proof (Saud _ (proj1 (find_rt_in _ _ _ Hrt))) as Haud.
+    assert (Hj2 : match (if c_jwt c then Some (c_id c) else None) with
+                  | Some _ => strs_eqb (if c_jwt c then match r_aud t with [] => [r_client t] | _ => r_aud t end else [])
+                                (match grant_aud cf (r_client t) with [] => [r_client t] | l => l end)
+                  | None => true end = true).
+    { destruct (c_jwt c); [rewrite Haud; destruct (grant_aud cf (r_client t)); apply strs_eqb_refl | reflexivity]. }
     unfold issue_refresh. cbn [fst snd].
     split; [reflexivity|].
     destruct (f_keep cf) eqn:Hkeep.
     { (* the storage keeps the presented token *)
       split.
-      { cbn [c07_ok]. rewrite Hgt, Hnrot, Hkeep, Hfl, R1, Hp, R5, Hs2. cbn [orb negb andb t_scope t_jwt t_rt].
-        unfold client_refresh. rewrite Hfc, Hr, Hnref, Hsceq, Hj, Htid, Nat.eqb_refl.
+      { cbn [c07_ok]. rewrite Hgt, Hnrot, Hkeep, Hfl, R1, Hp, R5, Hs2. cbn [orb negb andb t_scope t_jwt t_at_aud t_rt].
+        unfold client_refresh. rewrite Hfc, Hr, Hnref, Hsceq, Hj, Hj2, Htid, Nat.eqb_refl.
         cbn [negb andb t_sub t_at_sub t_aud t_azp t_auth].
         rewrite R2, R3, R4, !String.eqb_refl, strs_eqb_refl, Nat.eqb_refl. reflexivity. }
       cbn [ledger_step]. unfold add_rt. cbn [t_rt]. rewrite Htid, Nat.eqb_refl.
@@ -210,12 +218,13 @@ Proof.
       + intros m t1. unfold g_rt. cbn [g_rts find r_id rt_of_resp]. rewrite ?Htid.
         destruct (Nat.eqb n m) eqn:E; [apply Nat.eqb_eq in E; lia|].
         intro Hg. apply Srb in Hg. lia.
-      + intros m Hin. apply Srot in Hin. lia. }
+      + intros m Hin. apply Srot in Hin. lia.
+      + intros t1 [<- | Hin]; [exact Haud | apply filter_In in Hin as [Hin _]; now apply Saud]. }
     assert (Hne : Nat.eqb (S (next s)) n = false) by (apply Nat.eqb_neq; lia).
     split.
-    { cbn [c07_ok]. rewrite Hgt, Hkeep, Hnrot, Hfl, R1, Hp, R5, Hs2. cbn [orb negb andb t_scope t_jwt t_rt].
+    { cbn [c07_ok]. rewrite Hgt, Hkeep, Hnrot, Hfl, R1, Hp, R5, Hs2. cbn [orb negb andb t_scope t_jwt t_at_aud t_rt].
       unfold client_refresh. rewrite Hfc, Hr, Hnref, Hsceq. cbn [andb].
-      rewrite Hj, Hfresh. cbn [andb].
+      rewrite Hj, Hj2, Hfresh. cbn [andb].
       rewrite Hne. cbn [negb andb t_sub t_at_sub t_aud t_azp t_auth].
       rewrite R2, R3, R4, !String.eqb_refl, strs_eqb_refl, Nat.eqb_refl. reflexivity. }
     cbn [ledger_step]. unfold add_rt. cbn [t_rt]. rewrite Hne.
@@ -237,6 +246,7 @@ Proof.
       destruct (Nat.eqb (S (next s)) m) eqn:E; [apply Nat.eqb_eq in E; lia|].
       intro Hg. apply Srb in Hg. lia.
     + intros m [<- | Hin]; [lia|]. apply Srot in Hin. lia.
+    + intros t1 [<- | Hin]; [exact Haud | apply filter_In in Hin as [Hin _]; now apply Saud].
   - (* refresh grant withdrawn *)
     split; [reflexivity|]. split; [reflexivity|]. cbn [ledger_step].
     constructor; cbn [g_reqs g_codes g_used g_rts g_rot g_norefresh reqs codes rtoks next ncode norefresh]; try assumption.
@@ -254,6 +264,7 @@ Proof.
       * intros y Ey. apply Nat.eqb_eq in Ey. rewrite Ey. apply negb_true_iff, Nat.eqb_neq. exact Hne.
     + intros m Hin. destruct (g_rt g nrev) eqn:Hg; [|now apply Srot].
       destruct Hin as [<- | Hin]; [eapply Srb; eauto | now apply Srot].
+    + intros t Hin. apply filter_In in Hin as [Hin _]. now apply Saud.
 Qed.
 
 (* ---- whole histories ---- *)
@@ -275,7 +286,7 @@ Qed.
 Lemma outs_run ops : outs H cf ops = run init ops.
 Proof. unfold outs, exec, exec_from. now rewrite fold_outs. Qed.
 
-Lemma check_run ops : forall h s g, reach H cf h s -> Sim (f_keep cf) g s ->
+Lemma check_run ops : forall h s g, reach H cf h s -> Sim (grant_aud cf) g s ->
   check (c04_ok H cf) g ops (run s ops) = true /\ check (c07_ok cf) g ops (run s ops) = true.
 Proof.
   induction ops as [|[r o] ops IH]; intros h s g Hr Hsim; cbn [run check]; [auto|].
